@@ -49,3 +49,17 @@ Definition wallet_v2 (ver : list xrow) : xstate content :=
 
 Definition wallet_allowed : list (xstate content) :=
   [wallet_v1; wallet_v2 (version_is 2); wallet_v2 []].
+
+(* ---------------------------------------------------------------- a brand-new file (first open) *)
+(* the complete latest schema, empty, with its version row: what the first open of a fresh file must end in, and
+   what every later open of a file whose first open was killed must end in as well *)
+Definition identity_new : xstate content :=
+  [mkXT TID_Tokens [0; 1; 3]%nat 5 (CRows []);
+   mkXT TID_Metadata [0; 1]%nat 4 (CRows []);
+   mkXT TID_Attestations [0; 1; 2]%nat 4 (CRows []);
+   option_tab (version_is 2)].
+
+Definition wallet_new : xstate content :=
+  [mkXT TID_wallet [O] 4 (CRows []); option_tab (version_is 2)].
+
+Definition no_rows (s : Z) : list xrow := [].
